@@ -201,6 +201,27 @@ func c43(c *Ctx) {
 				c.MustFact(am[0].mc, "rejected:AmbientError-only-with-error", NotNil(updErr))
 				c.MustFact(am[0].mc, "rejected:AmbientError-only-when-cached", cacheSet)
 				c.Unreachable(am[0].mc, "rejected:no-repeat-of-identical-ambient-error", dupErr)
+				// complement: the rejected-update notifications are produced only when there was no previous error or its text differs
+				neqErr := func(fc Fact) bool {
+					if fc.Kind != "cmp" || fc.Op != token.NEQ {
+						return false
+					}
+					isErrText := CallRes(CalleeX("", "error.Error"), 0)
+					return isErrText(fc.X) && isErrText(fc.Y)
+				}
+				var wr *ssa.BasicBlock
+				for _, b := range hf.Blocks {
+					for _, in := range b.Instrs {
+						if rg, ok := in.(*ssa.Range); ok && FieldLoad(fWatchers)(rg.X) {
+							if _, isErrArm := hasFact(FactsAtBlock(b), NotNil(updErr)); isErrArm {
+								wr = b
+							}
+						}
+					}
+				}
+				if c.Expect(wr != nil, rej.mc, hf, "rejected:watcher-walk", "no walk over the watchers on the rejected-update arm") {
+					c.EnteredOnlyWhen(wr, "rejected:notified-only-for-a-new-error", IsNil(FieldLoad(fErrState)), IsNil(FieldLoadOn(c.field(xdscRes, "UpdateErrorMetadata", "Err"), AnyV)), neqErr)
+				}
 				// removal
 				c.MustFact(del.mc, "removed:only-all-resources-required-types", Truth(FieldLoad(fAllReq), true))
 				c.MustFact(del.mc, "removed:only-if-cached", cacheSet)
@@ -333,6 +354,39 @@ func c43(c *Ctx) {
 		}
 		c.Expect(len(nne) == 1, nil, body, "not-found-delivered", "a new watcher of a non-existent resource is not told so")
 		_ = fMD
+		// existing state is reused: the per-type map and the per-resource state are created only when absent
+		// (replacing them would hide the cached resource and the error state from the new watcher)
+		fRes := c.field(xdsc, au, "resources")
+		resName := func(v ssa.Value) bool {
+			if ParamV("resourceName")(v) {
+				return true
+			}
+			u, ok := v.(*ssa.UnOp)
+			if !ok {
+				return false
+			}
+			fv, ok := u.X.(*ssa.FreeVar)
+			return ok && fv.Name() == "resourceName"
+		}
+		nCreate := 0
+		for _, in := range instrsWhere(body, func(in ssa.Instruction) bool { _, ok := in.(*ssa.MapUpdate); return ok }) {
+			mu := in.(*ssa.MapUpdate)
+			switch {
+			case FieldLoad(fRes)(mu.Map):
+				nCreate++
+				c.MustFact(in, "type-map-created-only-when-absent", IsNil(LookupOf(FieldLoad(fRes), AnyV)))
+			case FieldLoad(fWatchers)(mu.Map):
+			default:
+				if _, isState := mu.Value.(*ssa.Alloc); isState || typeName(mu.Value.Type()) == "resourceState" {
+					nCreate++
+					c.MustFact(in, "resource-state-created-only-when-absent", IsNil(LookupOf(AnyV, resName)))
+				}
+			}
+		}
+		c.Expect(nCreate == 2, nil, body, "state-creation-sites", "expected the per-type map and the per-resource state to be created at one site each")
+		for _, sub := range callsIn(body, Callee(xdsc, "xdsChannel.subscribe")) {
+			c.MustFact(sub, "subscribed-only-for-a-new-resource", IsNil(LookupOf(AnyV, resName)))
+		}
 	})
 	c.Ob("last-unwatch", "R3", "unwatchResource: the watcher leaves the set; when none remain, every channel is unsubscribed and the state deleted", 3, func() {
 		uf := c.fn(xdsc, au+".unwatchResource")
@@ -597,6 +651,7 @@ func c44(c *Ctx) {
 			// the loop reaches every index: condition i < len(a.xdsChannelConfigs)
 			c.MustFact(chClear, "walk-to-the-end", Cmp(AnyV, token.LSS, LenOf(FieldLoad(fCfgs))))
 		}
+		c.Expect(c.NoEarlyExit(rf, AnyV, "revert:every-subscription-of-a-released-server-visited") >= 3, nil, rf, "revert:walks", "fewer walks over the subscriptions than on the reviewed tree")
 		// caller
 		uf := c.fn(xdsc, au+".handleADSResourceUpdate")
 		n := 0
